@@ -199,6 +199,14 @@ def handle (j : Json) : String :=
       match Spec.jsonEncode (fun f bs v => Spec.choose f env o.strict o.disableTuple bs v) FUEL env s (getV j "value") with
       | none => "{\"none\":true}"
       | some v => "{\"ok\":" ++ ofVal v ++ "}"
+  | "spec.written" =>
+    match parseReq j with
+    | .error e => "{\"perr\":\"" ++ e.name ++ "\"}"
+    | .ok (s, env) =>
+      let o := wopts j
+      match Spec.written (fun f bs v => (Binary.choose f env o bs v).toOption) FUEL env s (getV j "value") with
+      | none => "{\"none\":true}"
+      | some v => "{\"ok\":" ++ ofVal v ++ "}"
   | "inject" =>
     let inner := getV j "inner"
     let innerName := match inner with
